@@ -365,3 +365,8 @@ pub fn pump_once() -> bool {
 pub(crate) fn fnv_label(s: &str) -> u64 {
     simcore::fnv(s) & 0xff
 }
+
+/// Operations currently pending in any ring: (seq, opcode, fd).
+pub fn pending_ops() -> Vec<(u64, u8, i32)> {
+    with_kernel(|k| k.rings.values().flat_map(|r| r.ops.iter().map(|o| (o.seq, o.opcode, o.fd))).collect())
+}
